@@ -403,6 +403,16 @@ def io_events(S, c, t):
         if 'setw' in name or name.startswith('_ZStlsIcSt11char_traitsIcEERSt13basic_ostreamIT_T0_ES6_St5_Setw'):
             ev.append(('setw',)); continue
         payload = args[1:] if len(args) > 1 else []
+        def root(x, depth=0):
+            # the stream object an insertion goes to: the chain s << a << b passes the stream through the returned reference
+            if x.op == 'ptr': return x.attr
+            if x.op == 'call' and depth < 64:
+                aa = [y for y in x.args if y.ty != 'mem']
+                return root(aa[0], depth + 1) if aa else None
+            return None
+        strm = root(args[0]) if args else None
+        if 'copyfmt' in name:
+            ev.append(('copyfmt', strm, root(args[1]) if len(args) > 1 else None)); continue
         kind = None
         for a in payload:
             if a.op == 'const' and a.ty == 'i8':
@@ -414,7 +424,7 @@ def io_events(S, c, t):
             if src.op == 'in' and src.attr[0] == 'a1':
                 kind = ('slot', src.attr[1] // sz); break
         if kind:
-            ev.append(kind)
+            ev.append(kind + (strm,))
         else:
             ev.append(('other', name))
     return ev
@@ -440,7 +450,9 @@ def check_io(rep, ws, an, tu, t='f'):
             return k
         ev = io_events(S, c, t)
         toks = []
+        streams = {}
         for e in ev:
+            if e[0] in ('lit', 'slot'): streams[e[2]] = streams.get(e[2], 0) + 1; e = e[:2]
             if e[0] == 'lit':
                 s = lit_text(e[1])
                 if s is None:
@@ -448,6 +460,12 @@ def check_io(rep, ws, an, tu, t='f'):
                 else:
                     for ch in s: toks.append(('lit', ch))
             elif e[0] == 'slot': toks.append(e)
+        # every token goes into the caller's stream, whose formatting state (precision, flags, fill) is the one that applies; a
+        # private stream is only equivalent when it takes the whole state over (copyfmt)
+        foreign = [k for k in streams if k != 'a0']
+        copied = set(e[1] for e in ev if e[0] == 'copyfmt' and e[2] == 'a0')
+        if [k for k in foreign if k not in copied]:
+            rep.ob(oid, 'R04.io', VIOLATED, '%d of the insertions go into another stream object (%s) than the one passed in, without copyfmt: the components are then formatted with that stream\'s precision and fill, not the caller\'s' % (sum(streams[k] for k in foreign), ', '.join(str(k) for k in foreign)), where); continue
             # setw / flags / other formatting calls carry no text
         n = AGG[c][1]
         # expected grammar: '(' slot0 (ws+ slot_i)* ')' optional trailing newline; whitespace = ' ' or '\n'
